@@ -517,8 +517,8 @@ def mon_release_balance(case, lines):
     """every obtained lock is released exactly once: acquisitions - releases = what the mutex still shows,
     and that is exactly what the live handles own"""
     fin = _final(lines)
-    if fin is None or _verdict(lines) == 3:
-        return None
+    if fin is None or _verdict(lines) == 3 or fin[1] == -2 or fin[2] == -2:
+        return None     # (-2: the driver could not find the mutex member to peek at)
     ax = ux = as_ = us = 0
     for l in lines:
         if len(l) != 5 or l[0] < 0:
